@@ -21,6 +21,7 @@
    Results: [Ok], or [Fault] where the C would index outside an array or call abort(), or
    [NoFuel] for an exhausted loop bound.  Theorems show neither happens. *)
 From Coq Require Import ZArith List Bool.
+From Tickit Require Gen_Width Utf8Defs Utf8Spec.
 From Tickit Require Import RectDefs.
 Import ListNotations.
 Local Open Scope Z_scope.
@@ -82,17 +83,17 @@ Definition pen_eqb (a b : pen) : bool :=
   oz_eqb (p_fg a) (p_fg b) && oz_eqb (p_bg a) (p_bg b) && oz_eqb (p_b a) (p_b b) && oz_eqb (p_u a) (p_u b).
 
 (* ---------------------------------------------------------------------------------- *)
-(* text: code points and their column width (unicode.h tickit_utf8_wcwidth restricted to the
-   classes used by the generators; anything else is treated like a control character, i.e.
-   the string is invalid -- the harness never feeds such code points) *)
+(* text: code points and their column width.  The width is the library's own
+   tickit_utf8_wcwidth as modelled and specified by property C07 (Utf8Spec.spec_width:
+   membership in the width tables re-translated from src/unicode.h and src/fullwidth.inc on
+   every run; C07_wcwidth_is_membership proves it equal to the model of the C function).  A
+   string is invalid -- tickit_utf8_ncount returns -1 -- when it contains a C0/C1 control or
+   DEL (Utf8Spec.bad_cp).  Texts are lists of code points 1..0x1FFFFF, i.e. what UTF-8 of one
+   to four bytes encodes; RBUtf8Bridge.v proves that counting over such a list is C07's
+   tickit_utf8_ncountmore on its encoding. *)
 
 Definition cpw (c : Z) : Z :=
-  if (0x20 <=? c) && (c <=? 0x7e) then 1          (* printable ASCII *)
-  else if (0xa1 <=? c) && (c <=? 0xff) then 1     (* Latin-1 (two UTF-8 bytes) *)
-  else if (0x300 <=? c) && (c <=? 0x36f) then 0   (* combining diacriticals *)
-  else if (0x2500 <=? c) && (c <=? 0x257f) then 1 (* box drawing (line glyphs) *)
-  else if (0xff01 <=? c) && (c <=? 0xff60) then 2 (* fullwidth forms *)
-  else -1.
+  if (c <=? 0) || (0x200000 <=? c) || Utf8Spec.bad_cp c then -1 else Utf8Spec.spec_width c.
 
 (* TickitStringPos restricted to what renderbuffer.c uses: code points consumed (stands for
    .bytes/.codepoints), graphemes, columns *)
